@@ -35,7 +35,7 @@ ASSUMPTIONS = [
     'parseable as a number',
 ]
 ANCHORS = ['Table.delimited_self', 'Table._extract_data_from_tsv', 'Table.from_tsv', '_convert', 'parse_biom_table']
-REQUIRED = ['import_from_tsv_with_mappings', 'ids_with_line_boundary_characters', 'text_category_round_trips', 'last_sample_named_like_a_metadata_column', 'scale_exports', 'ids_with_blanks_at_their_edges', 'non_finite_value_in_last_column', 'export_legacy_function', 'export_other_column_name',
+REQUIRED = ['hierarchical_category_round_trips', 'import_from_tsv_with_mappings', 'ids_with_line_boundary_characters', 'text_category_round_trips', 'last_sample_named_like_a_metadata_column', 'scale_exports', 'ids_with_blanks_at_their_edges', 'non_finite_value_in_last_column', 'export_legacy_function', 'export_other_column_name',
             'import_legacy_convert_table_to_biom', 'export_asked_for_absent_metadata', 'exported_again_after_change', 'export_to_tsv', 'export_str', 'export_direct_io',
             'export_cli', 'import_from_tsv_lines', 'import_from_tsv_handle',
             'import_load_table', 'import_load_table_gz',
@@ -147,6 +147,96 @@ def text_md_case(ctx, index, r):
     ctx.case(desc, True)
 
 
+def nested_md_case(ctx, index, r):
+    """The library's own formatter / inverse pair for hierarchical values:
+    ``biom.parse.biom_meta_to_string`` (the default of the legacy export
+    function) writes a text, a flat list or a list of lists (several
+    lineages per observation); ``sc_pipe_separated`` reads the text back as
+    a list of lists.  Tokens are free of the two separators and of blanks at
+    their edges, which is where the pair is an inverse."""
+    biom = ctx.biom
+    from biom.parse import (biom_meta_to_string, sc_pipe_separated,
+                            convert_biom_to_table)
+    spec = gen.gen_spec(r, max_n=5, max_m=4, id_classes=['ascii', 'natsort',
+                                                         'latin1', 'decimal'],
+                        md_kinds=['none'], value_classes=['count', 'frac',
+                                                          'tiny'])
+    n = len(spec.obs_ids)
+    toks = [x for x in _TAXA if ';' not in x and '|' not in x]
+    shape = r.choice(['lists-of-lists', 'flat-lists', 'mixed-depth'])
+
+    def lineage():
+        return [r.choice(toks) for _ in range(r.randint(1, 4))]
+    vals, want = [], []
+    for k in range(n):
+        nested = shape == 'lists-of-lists' or \
+            (shape == 'mixed-depth' and r.random() < .5)
+        if nested:
+            v = [lineage() for _ in range(r.randint(1, 3))]
+            vals.append(v)
+            want.append([list(x) for x in v])
+        else:
+            v = lineage()
+            vals.append(v)
+            want.append([list(v)])
+    if shape == 'lists-of-lists' and all(len(v) == 1 for v in vals):
+        vals[0] = vals[0] + [lineage()]
+        want[0] = [list(x) for x in vals[0]]
+    spec.obs_md = [{'taxonomy': v} for v in vals]
+    t = gen.build(biom, spec, 'dense')
+    exporter = r.choice(['to_tsv', 'direct_io', 'legacy-function-default'])
+    desc = {'table': spec.describe(), 'hierarchical_category': vals,
+            'shape': shape, 'exporter': exporter}
+    files = []
+    try:
+        if exporter == 'to_tsv':
+            text = t.to_tsv(header_key='taxonomy', header_value='taxonomy',
+                            metadata_formatter=biom_meta_to_string)
+        elif exporter == 'direct_io':
+            buf = io.StringIO()
+            t.to_tsv(header_key='taxonomy', header_value='taxonomy',
+                     metadata_formatter=biom_meta_to_string, direct_io=buf)
+            text = buf.getvalue()
+        else:
+            inp = ctx.path('c03nest%d.biom' % index)
+            files.append(inp)
+            with open(inp, 'w', encoding='utf-8') as f:
+                f.write(t.to_json('vm'))
+            text = convert_biom_to_table(inp, header_key='taxonomy',
+                                         header_value='taxonomy')
+        try:
+            o, s_, D, mdn, mds = tsvspec.decode(text, True)
+        except Exception as e:
+            raise Violation('C03/export-undecodable', '%s: %s; text=%r; '
+                            'case=%r' % (type(e).__name__, e, text[:300],
+                                         desc))
+        if o != spec.obs_ids or s_ != spec.samp_ids or \
+                not snap.bits_equal(D, spec.D) or mdn != 'taxonomy':
+            raise Violation('C03/export-metadata', 'the text reads %r / %r / '
+                            '%r / %s; case=%r' % (o, s_, D.tolist(), mdn,
+                                                  desc))
+        lines = text.split('\n')
+        if lines and lines[-1] == '':
+            lines.pop()
+        t2 = biom.Table.from_tsv(lines, None, None, sc_pipe_separated)
+        g = snap.snap(t2)
+        d = snap.diff(g, snap.snap_spec(spec), fields=('obs_ids', 'samp_ids',
+                                                       'D'))
+        got = None if g.obs_md is None else [m.get('taxonomy')
+                                             for m in g.obs_md]
+        if d or got != want:
+            raise Violation('C03/roundtrip-metadata/hierarchical', '%s; the '
+                            'category reads back %r, exported %r; case=%r' %
+                            ('; '.join(d), got, want, desc))
+        ctx.count('hierarchical_category_round_trips')
+        ctx.cls('hierarchical_shape', shape)
+    finally:
+        for p_ in files:
+            if os.path.exists(p_):
+                os.remove(p_)
+    ctx.case(desc, True)
+
+
 def _looks_numeric(v):
     try:
         float(v)
@@ -159,6 +249,8 @@ def run_case(ctx, index):
     r = ctx.rng(index)
     if index % 19 == 7:
         return text_md_case(ctx, index, r)
+    if index % 19 == 13:
+        return nested_md_case(ctx, index, r)
     biom = ctx.biom
     shape = None
     pick = index % 6
